@@ -30,6 +30,7 @@ SEL0 = "(not old(self.should_skip) and tag_check(runner.config.tag_expression, s
 STEPS = "as_list(all_steps_of(self), 'ref:Step')"
 
 
+HFLAGS = "forall(lambda r: implies(field_of(r, 'hook_failed', 'Step') and not old(field_of(r, 'hook_failed', 'Step')), G_bad > old(G_bad)))"
 CAP = ("cinv(runner.capture_controller, sys) and is_none(runner.capture_controller.old_stdout) "
        "and is_none(runner.capture_controller.old_stderr) and not is_none(runner.context) "
        "and sys.stdout is old(sys.stdout) and sys.stderr is old(sys.stderr)")
@@ -61,8 +62,12 @@ contract(M + "Scenario.run", props=P,
          loops=[
              # 0: before_tag hooks
              Loop(modifies=HOOKMOD, invariant={
-                 "capture": CAP, "context": CTX,
-                 "hook-failure-is-a-bad-event": "G_bad >= old(G_bad) and self.hook_failed == (G_bad > old(G_bad))",
+                 "capture": CAP, "context": CTX, "hook-flags": HFLAGS,
+                 "visible-counters": "implies(runner.hook_failures > old(runner.hook_failures), G_bad > old(G_bad)) and "
+                                     "implies(len(runner._undefined_steps) > old(len(runner._undefined_steps)), G_bad > old(G_bad)) and "
+                                     "implies(G_ctx_aborted and not old(G_ctx_aborted), G_bad > old(G_bad)) and G_bad >= old(G_bad)",
+                 "hook-failure-is-a-bad-event": "G_bad >= old(G_bad) and self.hook_failed == (G_bad > old(G_bad)) "
+                                                "and runner.hook_failures >= old(runner.hook_failures)",
                  "hooks-only-if-selected": "not runner.config.dry_run",
              }),
              Loop(broadcast=("abs:fmt.scenario", "scenario")),
@@ -76,8 +81,12 @@ contract(M + "Scenario.run", props=P,
              Loop(broadcast=("abs:fmt.step", "step")),
              # 4: the step loop; ghost j = number of steps handed to Step.run so far
              Loop(modifies=STEPMOD, ghost={"j": ("0", "j + (1 if at_start(run_steps) else 0)")}, invariant={
-                 "capture": CAP, "context": CTX,
-                 "bad-monotone": "G_bad >= old(G_bad) and len(runner._undefined_steps) >= " + UNDEF0,
+                 "capture": CAP, "context": CTX, "hook-flags": HFLAGS,
+                 "visible-counters": "implies(runner.hook_failures > old(runner.hook_failures), G_bad > old(G_bad)) and "
+                                     "implies(len(runner._undefined_steps) > old(len(runner._undefined_steps)), G_bad > old(G_bad)) and "
+                                     "implies(G_ctx_aborted and not old(G_ctx_aborted), G_bad > old(G_bad)) and G_bad >= old(G_bad)",
+                 "bad-monotone": "G_bad >= old(G_bad) and len(runner._undefined_steps) >= " + UNDEF0 +
+                                 " and runner.hook_failures >= old(runner.hook_failures)",
                  "running-only-outside-dry-run": "implies(run_steps, not runner.config.dry_run) and "
                                                  "implies(dry_run_scenario, runner.config.dry_run)",
                  "failed-means-bad-event": "implies(failed, G_bad > old(G_bad))",
@@ -105,8 +114,12 @@ contract(M + "Scenario.run", props=P,
              Loop(broadcast=[("abs:fmt.match", "match"), ("abs:fmt.result", "result")]),  # dry-run emulation
              # 6: after_tag hooks
              Loop(modifies=HOOKMOD, invariant={
-                 "capture": CAP, "context": CTX,
-                 "hook-failure-is-a-bad-event": "G_bad >= pre(G_bad) and self.hook_failed == (pre(self.hook_failed) or G_bad > pre(G_bad))",
+                 "capture": CAP, "context": CTX, "hook-flags": HFLAGS,
+                 "visible-counters": "implies(runner.hook_failures > old(runner.hook_failures), G_bad > old(G_bad)) and "
+                                     "implies(len(runner._undefined_steps) > old(len(runner._undefined_steps)), G_bad > old(G_bad)) and "
+                                     "implies(G_ctx_aborted and not old(G_ctx_aborted), G_bad > old(G_bad)) and G_bad >= old(G_bad)",
+                 "hook-failure-is-a-bad-event": "G_bad >= pre(G_bad) and self.hook_failed == (pre(self.hook_failed) or G_bad > pre(G_bad)) "
+                                                "and runner.hook_failures >= pre(runner.hook_failures)",
              }),
          ],
          assume={"step-list-is-not-the-runners-undefined-list": "all_steps_of(self) is not runner._undefined_steps",
@@ -131,6 +144,17 @@ contract(M + "Scenario.run", props=P,
              "no-false-red": "implies(result, G_bad > old(G_bad))",
              "no-false-green": "implies(G_bad > old(G_bad), result or len(runner._undefined_steps) > %s)" % UNDEF0,
              "bad-events-never-decrease": "G_bad >= old(G_bad)",
+             "counters-never-decrease": "len(runner._undefined_steps) >= %s and runner.hook_failures >= old(runner.hook_failures)" % UNDEF0,
+             "context-feature-stays-a-feature": "is_none(G_ctx_feature) or typeof_is(G_ctx_feature, 'Feature')",
+             "context-kept": "not is_none(runner.context)",
+             "hook-failures-grow-only-with-a-bad-event": "implies(runner.hook_failures > old(runner.hook_failures), G_bad > old(G_bad))",
+             "undefined-steps-found-are-bad-events": "implies(len(runner._undefined_steps) > old(len(runner._undefined_steps)), G_bad > old(G_bad))",
+             "abort-only-with-a-bad-event": "implies(G_ctx_aborted and not old(G_ctx_aborted), G_bad > old(G_bad))",
+
+             "hook-flags-set-only-with-a-bad-event":
+                 "forall(lambda r: implies(field_of(r, 'hook_failed', 'Step') and not old(field_of(r, 'hook_failed', 'Step')), G_bad > old(G_bad)))",
+             "outer-saved-scopes-kept":
+                 "forall(lambda k: implies(k < old(G_ctx_depth), G_ctx_saved_scenario(k) == old(G_ctx_saved_scenario(k))))",
              # ---- C09 / C12 ---------------------------------------------------------------------
              "not-selected-scenario-runs-no-hook":
                  "implies(not %s and not old(G_ctx_aborted), G_nhooks == old(G_nhooks))" % SEL0,
@@ -153,4 +177,4 @@ contract(M + "Scenario.run", props=P,
          },
          doc="no `raises`: nothing escapes Scenario.run under A-user/A-hook (KeyboardInterrupt is turned into an error step)")
 
-prop("C01", level="proof", bounded=[], explanation="verdict chain (in progress)", notes=[])
+
